@@ -72,6 +72,9 @@ class CallMixin:
             return self.ok(st, self.make_super(st, node))
         if isinstance(node.func, ast.Name) and node.func.id == 'cast' and len(node.args) == 2:
             return self.ev(st, node.args[1])
+        if isinstance(node.func, ast.Name) and node.func.id in ('any', 'all') and len(node.args) == 1 \
+                and isinstance(node.args[0], ast.GeneratorExp) and node.func.id not in st.loc:
+            return self.quantify_generator(st, node.args[0], node.func.id == 'all', node)
 
         def after_func(st2, fv):
             return self.ev_args(st2, node, lambda st3, args: self.call(st3, fv, args, node))
